@@ -169,6 +169,17 @@ func c16Run(ctx *Ctx, c c16Case) {
 	if placeholder {
 		if out.Err == nil {
 			ctx.Fail("unimplemented function returns a value: "+c.Name, fmt.Sprintf("%s → %s", src, out))
+			return
+		}
+		// … on every input: an empty or a multi-item input must not be answered either
+		if i := strings.Index(src, "."+c.Name+"("); i > 0 {
+			for _, recv := range []string{"{}", "Patient.photo", "%none", "%ints", "%names", "'x'"} {
+				alt := recv + src[i:]
+				if o := evalWith(alt, input, vars, copts...); o.CompileErr == nil && o.Panic == "" && o.Err == nil {
+					ctx.Fail("unimplemented function returns a value: "+c.Name+" (other input)", fmt.Sprintf("%s → %s", alt, o))
+					return
+				}
+			}
 		}
 		return
 	}
